@@ -1541,3 +1541,99 @@ def _hk_post(st, interp, C, res):
 
 U_HILL_KEY = Unit("_hill_key", FORMULAS + "._hill_key", _hk_inputs, _hk_post,
                   inline={"periodictable.core.isisotope", "periodictable.core.ision"}, replay={"module": "c19", "task": "replay"})
+
+
+# ==============================================================================  _change_table (recursive translation of a structure to another table)
+
+CTS = z3.Function("change_table_of_structure", T.Seq, T.Seq)
+CTA = z3.Function("change_table_of_atom", T.Atom, T.Atom)      # core.change_table(atom, table): its own unit (C08/C10)
+
+
+def c_change_table_rec(interp, st, args, kw):
+    """_change_table(fragment, table) at the recursive call site: an atom becomes change_table(atom, table); a sub-structure
+    becomes change_table_of_structure(sub); the measure depth decreases"""
+    v = args[0]
+    if st.ghost.get("ct_table") is not None:
+        st.oblige("recursion.the same target table is passed down", z3.BoolVal(len(args) == 2 and args[1] is st.ghost["ct_table"]), kind="pre")
+    if isinstance(v, VSym) and isinstance(v.theory, T.FragTheory):
+        f = v.expr
+        measure = st.ghost.get("decreases")
+        if measure is not None:
+            st.oblige("recursion.decreases", z3.Implies(T.Frag.is_fgroup(f), z3.And(T.DEPTH(T.Frag.seq_of(f)) < measure,
+                                                                                   T.DEPTH(T.Frag.seq_of(f)) >= 0)), kind="pre")
+        out = z3.If(T.Frag.is_fatom(f), T.Frag.fatom(CTA(T.Frag.atom_of(f))), T.Frag.fgroup(CTS(T.Frag.seq_of(f))))
+        return VSym(out, v.theory)
+    raise Unsupported("_change_table callee contract on %r" % type(v).__name__)
+
+
+def _ct_define(interp, st, rec):
+    val = rec["value"]
+    if not (isinstance(val, VTuple) and len(val.items) == 2 and isinstance(val.items[1], VSym)):
+        raise Unsupported("element of the _change_table comprehension is not a (count, fragment) pair")
+    R, j = rec["R"], rec["j"]
+    st.assume(z3.And(T.SCOUNT(R, j) == to_real(val.items[0]), T.SFRAG(R, j) == val.items[1].expr))
+
+
+def _ct2_inputs(st, interp):
+    use_state(st)
+    s = SEQS.new(st, "seq")
+    table = VObj("TargetTable", {})
+    st.ghost["decreases"] = T.DEPTH(s.expr)
+    st.ghost["comp_define"] = _ct_define
+    st.ghost["seq_theory"] = SEQS
+    st.ghost["ct_table"] = table
+    return [s, table], {}, {"S": s.expr, "table": table}
+
+
+def _ct2_post(st, interp, C, res):
+    if res.outcome == "raise":
+        st.oblige("never-raises on a well-formed structure", False, kind="raises", info={"exc": res.exc})
+        return
+    r = res.value
+    comps = st.ghost.get("comprehensions", [])
+    ok = isinstance(r, VSym) and isinstance(r.theory, T.SeqTheory) and len(comps) == 1 and z3.eq(r.expr, comps[0]["R"])
+    st.oblige("post.returns the mapped sequence", z3.BoolVal(bool(ok)))
+    if not ok:
+        return
+    st.oblige("post.the result is a tuple", z3.BoolVal(getattr(r, "kind", None) == "tuple"))
+    R, S, j = comps[0]["R"], C["S"], comps[0]["j"]
+    fS, fR = T.SFRAG(S, j), T.SFRAG(R, j)
+    st.oblige("post.same length", T.SLEN(R) == T.SLEN(S))
+    st.oblige("post.entry j keeps its count", T.SCOUNT(R, j) == T.SCOUNT(S, j))
+    st.oblige("post.an atom at entry j is replaced by change_table(atom, table); a group by its translated group",
+              z3.And(z3.Implies(T.Frag.is_fatom(fS), fR == T.Frag.fatom(CTA(T.Frag.atom_of(fS)))),
+                     z3.Implies(T.Frag.is_fgroup(fS), fR == T.Frag.fgroup(CTS(T.Frag.seq_of(fS))))))
+
+
+def c_core_change_table(interp, st, args, kw):
+    a = args[0]
+    if st.ghost.get("ct_table") is not None:
+        st.oblige("pre.change_table is asked for the caller's table", z3.BoolVal(len(args) == 2 and args[1] is st.ghost["ct_table"]), kind="pre")
+    return ATOMS.sym(st, CTA(a.expr))
+
+
+U_CHANGE_TABLE_STRUCT = Unit("_change_table[any structure]", FORMULAS + "._change_table", _ct2_inputs, _ct2_post,
+                             contracts={FORMULAS + "._change_table": c_change_table_rec, CORE + ".change_table": c_core_change_table},
+                             inline={CORE + ".isatom"}, replay={"module": "c10", "task": "replay"})
+
+
+def _ct_atom_inputs(st, interp):
+    use_state(st)
+    a = ATOMS.new(st, "atom")
+    table = VObj("TargetTable", {})
+    st.ghost["ct_table"] = table
+    return [a, table], {}, {"a": a, "table": table}
+
+
+def _ct_atom_post(st, interp, C, res):
+    if res.outcome == "raise":
+        st.oblige("never-raises", False, kind="raises", info={"exc": res.exc})
+        return
+    r = res.value
+    st.oblige("post.an atom is translated by core.change_table to the table asked for",
+              z3.BoolVal(False) if not isinstance(r, VSym) else r.expr == CTA(C["a"].expr))
+
+
+U_CHANGE_TABLE_ATOM = Unit("_change_table[atom]", FORMULAS + "._change_table", _ct_atom_inputs, _ct_atom_post,
+                           contracts={FORMULAS + "._change_table": c_change_table_rec, CORE + ".change_table": c_core_change_table},
+                           inline={CORE + ".isatom"}, replay={"module": "c10", "task": "replay"})
